@@ -295,20 +295,21 @@ def run_property(modname, tier, seed, nproc=None, only=None, verbose=False):
             known_hit[f['what']] = known_hit.get(f['what'], 0) + 1
             continue
         nviol += 1
-        key = (it['harness'], common[0])
-        if key in printed:
+        new_labels = [l for l in dict.fromkeys(common) if (it['harness'], l) not in printed]
+        if not new_labels:
             continue
-        printed.add(key)
+        for l in new_labels:
+            printed.add((it['harness'], l))
+        infos = [x for x in cr.get('failed', []) if x[0] in new_labels][:3]
         body = {'property': prop, 'module': modname, 'harness': it['harness'], 'cfg': it['cfg'],
-                'inputs': it['inputs'], 'labels': common, 'info': v.get('info'),
+                'inputs': it['inputs'], 'labels': new_labels, 'info': infos,
                 'concrete_failed': cr.get('failed'), 'concrete_obs': cr.get('obs')}
         dg = hashlib.sha256(json.dumps(body, sort_keys=True).encode()).hexdigest()[:12]
         path = os.path.join(VERIF, 'replays', '%s-%s.json' % (prop, dg))
         json.dump(body, open(path, 'w'), indent=1)
         print('VIOLATION property=%s replay=%s' % (prop, path))
-        print('  harness=%s cfg=%s label=%s info=%s inputs=%s' % (
-            it['harness'], json.dumps(it['cfg']), common, [x[1] for x in cr.get('failed', [])][:2],
-            json.dumps(it['inputs'])))
+        print('  harness=%s cfg=%s failed=%s inputs=%s' % (
+            it['harness'], json.dumps(it['cfg']), json.dumps(infos), json.dumps(it['inputs'])))
     for what, n in known_hit.items():
         print('KNOWN-FINDING: property=%s %s' % (prop, what))
     # ---- vacuity ---------------------------------------------------------------
